@@ -376,6 +376,23 @@ func c19Families(tier string) []explore.Family {
 			r.Violation("differs:delims-called-twice", map[string]any{"first_call": a, "second_call": b, "template": src}, "as on an engine that only got the second call: "+once.String(), twice.String())
 		}
 	}})
+	// delimiters beyond ASCII: multi-byte characters, alone and mixed with ASCII ones, lengths 1-3 characters
+	wide := [][4]string{{"«", "»", "‹%", "%›"}, {"⟦", "⟧", "⟪", "⟫"}, {"→", "←", "↑↑", "↓"}, {"«", "»", "<", ">"}, {"[[", "]]", "«%", "%»"}, {"é", "è", "ê", "ë"}, {"<é", "é>", "<è", "è>"}, {"日", "本", "語語", "文"},
+		{"«««", "»»»", "‹‹", "››"}, {"<", ">", "%«", "»%"}}
+	fams = append(fams, explore.Family{Name: "delimiters-beyond-ascii", Count: int64(len(wide)), Run: func(i int64, r *explore.Rec) {
+		q := wide[i]
+		if !c19Valid(q) {
+			panic(explore.BaselineFailure{Msg: "harness: invalid quadruple " + fmt.Sprint(q)})
+		}
+		r.Trace()
+		for ti := 0; ti < len(c19Templates); ti++ {
+			if (q[0] == "<" || q[2] == "<") && strings.Contains(c19Templates[ti], "DEF(") {
+				continue
+			}
+			c19Compare(r, ti, q, q, "beyond-ascii")
+		}
+		c19OpaqueBodies(r, q, true)
+	}})
 	// each subset of positions left empty = default at that position
 	reps := [][4]string{{"<", ">", "[", "]"}, {"<<", ">>", "<$", "$>"}, {"[", "]", "<", ">"}, {"$", `\`, "<", ">"}, {"<[", "]>", "[<", ">]"}, {"<", ">>", "[[", "]"}}
 	if tier == "thorough" {
